@@ -182,7 +182,7 @@ func init() {
 		// every response status code a server may write (100..999, most of them without a registered reason phrase)
 		if c.Want("roundtrip-status-codes") && c.Shard == 1%c.NShards {
 			st := c.Stat("roundtrip-status-codes", "enumeration")
-			st.Bounds = "entry status hit x every response status code 100..999 x {raw body, gzip only}: encode, decode, and the load path of a new entry give the same entry"
+			st.Bounds = "entry status hit x every response status code 100..999 x {raw body, gzip only}: encode, decode 7 s later, and the load path of a new entry give the same entry"
 			for code := 100; code <= 999; code++ {
 				for v := 0; v < 2; v++ {
 					resp := &cache.HTTPResponse{Header: http.Header{"Content-Type": {"text/plain"}}, StatusCode: code, CompressSrv: "profile1", CompressMinLength: 1024}
@@ -194,11 +194,13 @@ func init() {
 					status, created, expired := int(cache.StatusHit), int64(1700000000), int64(1700000600)
 					kase := map[string]interface{}{"code": code, "variant": v}
 					st.Execs++
+					vtime.Set(1700000000)
 					data, err := cache.VerifEncode(status, resp, created, expired)
 					if err != nil {
 						c.Violation("roundtrip-status-codes", "encode-error", err.Error(), nil, kase, nil)
 						continue
 					}
+					vtime.Set(1700000007) // the record is read back 7 s after it was written
 					got, err := cache.VerifDecode(data)
 					if err != nil {
 						c.Violation("roundtrip-status-codes", "decode-error-on-own-record", fmt.Sprintf("response status code %d: %v", code, err), nil, kase, nil)
@@ -212,7 +214,6 @@ func init() {
 					fs := env.NewFaultStore()
 					fs.HonorTTL = false
 					fs.Disk["k"] = env.DiskRec{Data: data}
-					vtime.Set(1700000000)
 					d := cache.VerifNewDispatcher(1, 4, 0, fs)
 					hc := d.GetHTTPCache([]byte("k"))
 					stGot, _ := hc.Get()
